@@ -57,16 +57,28 @@ func (s *streamSpec) String() string {
 	return fmt.Sprintf("%s %s key=%x iv=%x", s.family, b, s.key, s.iv)
 }
 
+// build hands the constructors private copies of key and IV and overwrites those copies as soon as the constructor
+// has returned: the object must own what it needs for later (backward seeks re-initialise the generator).
 func (s *streamSpec) build() (gcipher.SeekableStream, error) {
+	key, iv := append([]byte{}, s.key...), append([]byte{}, s.iv...)
+	defer scribble(key, iv)
 	switch {
 	case s.family == "eea3" && s.withB:
-		return zuc.NewEEACipherWithBucketSize(s.key, s.count, s.bearer, s.direction, s.bucketArg)
+		return zuc.NewEEACipherWithBucketSize(key, s.count, s.bearer, s.direction, s.bucketArg)
 	case s.family == "eea3":
-		return zuc.NewEEACipher(s.key, s.count, s.bearer, s.direction)
+		return zuc.NewEEACipher(key, s.count, s.bearer, s.direction)
 	case s.withB:
-		return zuc.NewCipherWithBucketSize(s.key, s.iv, s.bucketArg)
+		return zuc.NewCipherWithBucketSize(key, iv, s.bucketArg)
 	}
-	return zuc.NewCipher(s.key, s.iv)
+	return zuc.NewCipher(key, iv)
+}
+
+func scribble(bs ...[]byte) {
+	for _, b := range bs {
+		for i := range b {
+			b[i] = 0xA5
+		}
+	}
 }
 
 // refStream is the reference keystream, indexed by absolute byte position, extended on demand.
